@@ -150,12 +150,27 @@ class Functor(IUnifiable):
         else:
             return YPFail()
 
+def _copy_terms(terms):
+    """returns copies of the terms in which every unbound variable is replaced,
+    consistently, by a fresh one."""
+    fresh = {}
+    def copy(term):
+        term = get_value(term)
+        if isinstance(term, Variable):
+            return fresh.setdefault(term, Variable())
+        if isinstance(term, Functor):
+            return Functor(term._name, [copy(a) for a in term._args])
+        return term
+    return [copy(t) for t in terms]
+
 class Answer:
     """Data structure to represent predicates/facts."""
     def __init__(self, values):
-        self.values = values
+        # the fact owns its variables: they are not the asserting clause's
+        self.values = _copy_terms(values)
     def match(self, args):
-        return unify_arrays(args, self.values)
+        # and they are fresh at every use of the fact
+        return unify_arrays(args, _copy_terms(self.values))
     def __str__(self):
         return f'Answer({[to_python(x) for x in self.values]})'
 
